@@ -11,18 +11,15 @@ _INODE_NAMES = {0: "none0", 1: "dir", 2: "file", 3: "slink", 4: "bdev", 5: "cdev
                 12: "cdev_ext", 13: "fifo_ext", 14: "socket_ext", 15: "none15"}
 
 def _inode_cases():
-    out = []
-    for t, n in sorted(_INODE_NAMES.items()):
-        if t == 8:
-            for k in range(0, 4):
-                out.append(dict(id="%s_idx%d" % (n, k), defines={"ITYPE": t, "NIDX": k},
-                                tier="quick" if k <= 1 else "thorough",
-                                label="bounded(dir index entries <= 3)",
-                                unwindset=["read_inode_dir_ext.0:%d" % (k + 1),
-                                           "read_inode_dir_ext.1:60", "harness.0:%d" % (k + 1)]))
-        else:
-            out.append(dict(id=n, defines={"ITYPE": t}, tier="quick"))
-    return out
+    return [dict(id=n, defines={"ITYPE": t}, tier="quick")
+            for t, n in sorted(_INODE_NAMES.items()) if t not in (2, 8, 9)]
+
+def _dir_ext_cases():
+    return [dict(id="idx%d" % k, defines={"ITYPE": 8, "NIDX": k},
+                 tier="quick" if k <= 1 else "thorough",
+                 unwindset=["read_inode_dir_ext.0:%d" % (k + 1),
+                            "read_inode_dir_ext.1:60", "harness.0:%d" % (k + 1)])
+            for k in range(0, 4)]
 
 HARNESSES = [
     dict(name="super", file="super.c", label="proved", timeout=170,
@@ -32,8 +29,16 @@ HARNESSES = [
     dict(name="meta_read", file="meta_read.c", label="proved", timeout=170,
          fp=_FP_MR, flags=_UF, loops=["sqfs_meta_reader_read"], loop_tables=["C10"],
          defines={"MR_CAP": 1048576}),
-    # conversion check stays on: the payload sizes are stored in 32 bit fields
+    # one run per inode type (the split covers all 14 types plus two
+    # non-types: proved); conversion check stays on: payload sizes are stored
+    # in 32 bit fields
     dict(name="read_inode", file="read_inode.c", label="proved", timeout=170,
-         malloc_fail=True, flags=_UF,
-         loops=["read_inode_file", "read_inode_file_ext"], cases=_inode_cases()),
+         malloc_fail=True, flags=_UF, cases=_inode_cases()),
+    dict(name="read_inode_file", file="read_inode.c", label="proved", timeout=170,
+         malloc_fail=True, flags=_UF, loops=["read_inode_file"], defines={"ITYPE": 2}),
+    dict(name="read_inode_file_ext", file="read_inode.c", label="proved", timeout=170,
+         malloc_fail=True, flags=_UF, loops=["read_inode_file_ext"], defines={"ITYPE": 9}),
+    dict(name="read_inode_dir_ext", file="read_inode.c",
+         label="bounded(dir index entries <= 3)", timeout=170,
+         malloc_fail=True, flags=_UF, cases=_dir_ext_cases()),
 ]
